@@ -1141,6 +1141,9 @@ def _genband_unit(unit_name):
 
 
 EXTRACTORS["C02"] = EXTRACTORS["C02"] + [_genband_unit("SrcBand")]
+# genband, step 3: the per-column loop of compute_alignment as a unit of its own (Thm/GenSrcBandedFill.lean)
+GEN_SRC.update({n: gen_src(n) for n in ("SrcBandedFill",)})
+EXTRACTORS["C02"] = EXTRACTORS["C02"] + [_genband_unit("SrcBandedFill")]
 # genleft: leftovers of the earlier translation builders — tools/rs2lean_genleft.py (dialect "px": expression-bodied
 # functions; units of genio's sub-dialect "io"); docs/notes/GEN.md, section "genleft"
 TRANSLATOR_MODULES.append("rs2lean_genleft")
